@@ -336,7 +336,7 @@ func (m *machine) termVars(t *Term) []string {
 		switch x.Op {
 		case "var":
 			set[x.Name] = true
-		case "pf_val", "pf32_val", "f64_fmt", "f64_of_int", "go.tolower":
+		case "pf_val", "pf32_val", "pi0_val", "f64_fmt", "f64_of_int", "go.tolower":
 			set["@uf"] = true
 		}
 	})
